@@ -43,7 +43,7 @@ def pybind_sections(out):
 
 
 def matlab(text, module_name='mod', ignore=(), serialization=False, top='', files=None, wrapper=None,
-           keep_dir=None):
+           keep_dir=None, names=None):
     """Run MatlabWrapper.wrap on real files in a scratch directory; return {relative path: content}."""
     from gtwrap.matlab_wrapper import MatlabWrapper
     d = keep_dir or mkdtemp('ml')
@@ -54,7 +54,8 @@ def matlab(text, module_name='mod', ignore=(), serialization=False, top='', file
         os.makedirs(out, exist_ok=True)
         paths = []
         for i, t in enumerate(files if files is not None else [text]):
-            p = os.path.join(src, 'f%d.i' % i)
+            p = os.path.join(src, names[i] if names else 'f%d.i' % i)
+            os.makedirs(os.path.dirname(p), exist_ok=True)
             with open(p, 'w') as f:
                 f.write(t)
             paths.append(p)
